@@ -72,6 +72,13 @@ def esc(s):
     return ''.join(ch if 32 <= ord(ch) < 127 else '\\u{%x}' % ord(ch) for ch in s)
 
 
+def unesc(s):
+    """inverse of esc() for the \\u{hex} spelling: the text that goes on the wire (latin-1 characters: a
+    native string in the WSGI environ, raw bytes in the ASGI scope - engine/drivers.py encodes latin-1)."""
+    import re
+    return re.sub(r'\\u\{([0-9a-f]+)\}', lambda m: chr(int(m.group(1), 16)), s)
+
+
 def hdr(tokens):
     return {'p': True, 'o': False, 't': list(tokens)}
 
@@ -81,7 +88,7 @@ def opaque(text):
 
 
 def text_of(h):
-    return h['x'] if h.get('o') else ''.join(h['t'])
+    return h['x'] if h.get('o') else unesc(''.join(h['t']))
 
 
 def base_req(scheme='http'):
